@@ -23,6 +23,14 @@ CHECKS = {
    technique="set-inclusion chain oracle over power-of-two deltas, GetPut single-path oracle, real-time order check, hook jitter between read and write, race detector on a subset",
    text="8/16/24 concurrent callers hit one key once each per round with Incr/Decr/IncrByFloat (distinct power-of-two deltas, so a returned value is the set of calls ordered before it) or GetPut (unique values). Eight assignments of callers to entry points (owner only; cluster client only; one non-owner member; two different non-owner members; non-owner + cluster client; raw RESP non-owner + owner; all six paths mixed) on 1-3 members with ReplicaCount 1-2. The returned values must form a chain under set inclusion containing each caller's own delta, respect real-time order and sum to the final value; GetPut's old->new relation must be a single path over all calls.",
    note="Stable membership; a delay of 0-2 ms is injected between the read and the write of each atomic operation; rounds with a transport error are inconclusive."),
+ "C04": dict(category="exploration", design="DESIGN.md §3 C04",
+   technique="white-box equality monitor: after every acknowledged operation of random scripts the primary fragment of every partition is compared with each backup fragment (key set, value, expiry, timestamp); DM.GETENTRY vs DM.GETENTRY RC cross-check",
+   text="Sequential random scripts over the whole mutating API (Put with every option combination, Expire/PExpire, GetPut, Incr, Decr, IncrByFloat, Delete, Lock/LockWithTimeout/Unlock/Lease, TTL eviction scans, LRU eviction) through random entry paths on clusters of 3-4 members with ReplicaCount 2-3 and table sizes 1 KiB / 1 MiB. After EVERY step the complete primary fragment of every partition is compared, under the fragments' own locks, with the backup fragment on every listed backup owner: same keys, values, expiry and write timestamps. A behavioural cross-check compares DM.GETENTRY on the owner with DM.GETENTRY RC on each backup owner.",
+   note="Stable membership and synchronous replication; a difference must persist over 8 polls (200 ms) because background eviction removes backups before the primary copy; last-access is not compared."),
+ "C18": dict(category="exploration", design="DESIGN.md §3 C18",
+   technique="snapshot-and-compare monitor over returned values across overwrite/delete/table-recycling churn/compaction/migration, scribble tests on returned slices and Put buffers, race detector with a reader goroutine over returned values",
+   text="Every []byte/string returned by Get (embedded owner, embedded non-owner, cluster client; Byte and String accessors), GetPut and iterators is registered with a private copy taken at return time and re-compared after each follow-up: overwrite, delete, 12 rounds of churn with compaction to completion on 1 KiB tables (recycled and reused tables are observed white-box), and migration to a newly joined member. Returned slices and buffers passed to Put are overwritten by the harness and the stored value is re-read on every path and white-box on primary and backups. ReplicaCount 1 and 2 (with 2 the read is answered from the backup's decoded copy, so 1 is the case that exposes table memory). The -race binary runs the same script with a goroutine reading the registered values throughout; a race between that reader and olric code is a violation.",
+   note="Sweeps happen at phase boundaries, so a value that changes and changes back in between is not seen; the race detector only sees accesses that actually overlap in the run."),
 }
 
 NOT_BUILT_REASON = "check not built yet (work in progress in this session); not claimed until its monitor is silent on the unchanged tree"
